@@ -357,6 +357,10 @@ theorem canon_perm (n p : PStr) (as₁ as₂ : List (PStr × AttrVal)) (cbe pre 
 example : render (mkHTMLFormatter {}) builtin none (.tag [112] [] [([98], .str [49]), ([97], .none), ([97, 97], .list [[120], [121]])] false false [])
     = ofS "<p a aa=\"x y\" b=\"1\"></p>" := by decide +kernel
 
+/-- Every particle of the live entity regex has the shape the model can express: a literal key, optionally followed by a
+    negative look-ahead for one code point out of a set (`(?![xy])`). -/
+theorem regex_particles_regular : BS.Gen.htmlAltsIrregular = [] := by decide
+
 /-- The alternatives of the live entity regex (parsed back from `CHARACTER_TO_HTML_ENTITY_WITH_AMPERSAND_RE.pattern`) are
     mutually exclusive at every position: keys are distinct, and a key that starts a longer key carries a negative
     look-ahead for the longer key's next code point. Re-proved from the live table on every run. -/
